@@ -87,6 +87,11 @@ func zzReadAll(r io.Reader, bufSize int) ([]byte, bool) {
 // zzStream: writer over an absent / shorter / longer existing file, any
 // chunking; afterwards the file holds exactly the concatenation and a reader
 // returns exactly that for any buffer size.
+// zzPlainReader hides every method of a reader but Read.
+type zzPlainReader struct{ r io.Reader }
+
+func (p zzPlainReader) Read(b []byte) (int, error) { return p.r.Read(b) }
+
 func zzStream(kind int) {
 	name := zzBackendName[kind]
 	fs := zzBackend(kind)
@@ -108,8 +113,15 @@ func zzStream(kind int) {
 	for i := 0; i < nchunks; i++ {
 		c := nd.BytesUpTo("chunk", 2)
 		k := copy(buf, c)
-		n, err := w.Write(buf[:k])
-		nd.Assert(err == nil && n == len(c), "C04/"+name+"/write-ok")
+		if nd.Bool("chunk-by-io-copy") {
+			// the chunk arrives by io.Copy from a plain reader (a writer that
+			// brings its own ReadFrom takes that path)
+			n, err := io.Copy(w, zzPlainReader{bytes.NewReader(buf[:k])})
+			nd.Assert(err == nil && int(n) == len(c), "C04/"+name+"/write-ok")
+		} else {
+			n, err := w.Write(buf[:k])
+			nd.Assert(err == nil && n == len(c), "C04/"+name+"/write-ok")
+		}
 		all = append(all, c...)
 		buf[0], buf[1] = buf[0]^0xff, buf[1]^0xff
 	}
